@@ -286,6 +286,10 @@ func (ipv6 *IPv6) DecodeFromBytes(data []byte, df gopacket.DecodeFeedback) error
 		pEnd = len(ipv6.Payload)
 	}
 	ipv6.Payload = ipv6.Payload[:pEnd]
+	if ipv6.HopByHop != nil {
+		// the hop-by-hop layer hands the same bytes on: trim them alike
+		ipv6.hbh.Payload = ipv6.Payload
+	}
 
 	return nil
 }
